@@ -37,6 +37,11 @@ struct Inner {
     jitter: Option<u64>, // PRNG state for stress mode
     free_run: bool,
     hits: std::collections::BTreeMap<&'static str, u64>,
+    /// labels that were released from a hold point, and the delay applied when such a label
+    /// comes to take a connection lock again (a transaction split in two critical sections)
+    left: HashSet<String>,
+    relock_delay_us: u64,
+    relock_hits: u64,
 }
 
 pub struct Ctl {
@@ -79,6 +84,15 @@ impl Ctl {
         let hold = !g.free_run && g.filter.as_ref().is_some_and(|f| f(&label, point, ctx));
         if !hold {
             g.log.push(Event { seq, label: label.clone(), point, ctx, kind: "pass" });
+            if g.relock_delay_us > 0 && point.ends_with(".lock") && g.left.contains(&label) {
+                // the caller already wrote its request under the lock and now takes the lock a second
+                // time: let everybody else run first
+                g.relock_hits += 1;
+                let d = g.relock_delay_us;
+                drop(g);
+                std::thread::sleep(Duration::from_micros(d));
+                return;
+            }
             let jit = g.jitter.as_mut().map(|s| {
                 *s = s.wrapping_mul(6364136223846793005).wrapping_add(1442695040888963407);
                 (*s >> 33) % 16
@@ -104,6 +118,7 @@ impl Ctl {
         g.waiting.retain(|w| w.ticket != ticket);
         g.seq += 1;
         let seq = g.seq;
+        g.left.insert(label.clone());
         g.log.push(Event { seq, label, point, ctx, kind: "leave" });
         self.cv.notify_all();
     }
@@ -135,6 +150,20 @@ impl Ctl {
         g.jitter = None;
         g.log.clear();
         g.granted.clear();
+        g.left.clear();
+        g.relock_delay_us = 0;
+    }
+
+    /// Delay (microseconds) applied when a label that was released from a hold point reaches a
+    /// `*.lock` point again; 0 switches it off.
+    pub fn set_relock_delay(&self, us: u64) {
+        let mut g = self.inner.lock().unwrap();
+        g.relock_delay_us = us;
+        g.left.clear();
+    }
+
+    pub fn relock_hits(&self) -> u64 {
+        self.inner.lock().unwrap().relock_hits
     }
 
     /// Begin a new schedule: clear the log, keep holding by filter.
